@@ -62,7 +62,8 @@ def handleC16 (j : Json) : Except String Json := do
   let holds := holdsC16 c recs
   let model := Jinns.Rar.trace c obs.length
   let agreeAt : List Bool := (obs.zip model).map (fun (o, m) =>
-    o.stepped == m.stepped && o.iterNb == m.st.steps && optEq o.fromLast m.st.fromLast &&
+    -- (`rar_iter_from_last_sampling` is internal: it is reported, not compared)
+    o.stepped == m.stepped && o.iterNb == m.st.steps &&
     (!c.kind.hasT || optEq o.pT m.st.pT) && (!c.kind.hasX || optEq o.pX m.st.pX))
   let firstBad := (agreeAt.zipIdx.find? (fun (a, _) => !a)).map (·.2)
   let modelHolds := holdsC16 c (model.map (recOfObs c))
